@@ -4,6 +4,21 @@ import json, os
 ROOT = os.path.dirname(os.path.dirname(os.path.abspath(__file__)))
 
 CHECKS = {
+ "C01": ("stateful PBT over registration histories on a run-time programmable type family + builder histories + retain/round-trip closure, invariant checked after every step (proptest); libFuzzer targets retain, reg_struct in thorough",
+         "Exploration: generated histories of register_type / register_types / map_into_portable over generated cyclic type graphs (16 programmable node types x 44 wrapper shapes), builder histories under the documented discipline, retain masks and round trips; wf (id == index, resolve positional and total, every reference < n) is evaluated on Registry::types() after every operation and on every produced PortableRegistry.",
+         "Trusted: the family's type_info() is built with the public builders from a generated spec. Rust types cannot be created at run time, so 'all types' is sampled through 16 programmable node types and the built-in constructors around them.", "2/C01"),
+ "C02": ("PBT with two independent oracles over generated type graphs: harness-owned description of each type identity, and coinductive comparison of MetaType::type_info() with the portable entries (proptest); supervisor for termination",
+         "Exploration over histories on cyclic / mutually recursive generated graphs: every id handed out is walked through every reference and each entry is compared with (1) what the harness spec says the type is and (2) the type's own type_info().",
+         "Trusted: vtypes::desc (the harness's statement of what each built-in constructor and each programmed node must look like). PhantomData's own docs not asserted.", "2/C02"),
+ "C05": ("stateful PBT with deliberate repetition and aliases; identity<->id bijection against a harness identity function, registry-unchanged-on-repeat, exact entry count, type_info call counters (proptest)",
+         "Exploration over histories that re-register earlier roots through transparent wrappers and user aliases after unrelated registrations; checked after every registration.",
+         "Trusted: vtypes::ident, the identity function written from the property statement.", "2/C05"),
+ "C11": ("stateful PBT over histories: snapshot-extension invariant after every op, replay determinism (same thread / other thread), isomorphism under generated permutations of the roots (proptest)",
+         "Exploration: every prefix of every generated history is compared with the next state; the whole history is replayed twice; the roots are re-registered in a generated order and the two registries must be isomorphic under the root-induced renaming.",
+         "Cross-process reproducibility is observed by C15's fingerprints, not here.", "2/C11"),
+ "C16": ("PBT over triples of types: ==, cmp, hash, type_id against the independently computed declared identity TypeId::of::<T::Identity>(), plus coherence of definitions (proptest)",
+         "Exploration over triples drawn from 44 shapes x 16 nodes (with aliases and nested wrappers) under generated specs: equality/order/hash laws and 'same declared identity => equal type_info()'.",
+         "The declared identity is computed in the harness through a generic visitor, not through MetaType.", "2/C16"),
  "C06": ("differential PBT against a hand-written V14 reference encoder/decoder (proptest) + libFuzzer target reg_struct in thorough",
          "Exploration: tens of thousands (quick) to millions (thorough) of generated registries, wild and well-formed, are encoded by the library and by an independent reference codec written from the published layout; both directions are compared byte for byte. Sound for every registry explored; not a proof.",
          "Trusted: the reference codec in harness/vcore/src/refcodec.rs, parity-scale-codec's primitive encodings, proptest.", "2/C06"),
